@@ -4,7 +4,7 @@
    for the shared model of parse_ref (Base/PName.v). *)
 From Coq Require Import NArith List Bool Arith Lia ZArith.
 From Coq Require Import ZifyN ZifyBool ZifyNat.
-From DV Require Import Base.Outcome Base.Bytes Base.Names Base.PName C01.Model C01.Proofs.
+From DV Require Import Base.Outcome Base.Bytes Base.Names Base.PName C01.Model C01.Proofs C04.ProofsIter C04.ProofsParsed C04.ProofsCompressed.
 Import ListNotations.
 Local Open Scope N_scope.
 
@@ -21,4 +21,28 @@ Proof.
   exists labels. unfold parsed_to_name. rewrite E. cbn [bind fst]. split; [reflexivity|]. split.
   - split; [exact Hv|lia].
   - rewrite wire_abs_length. lia.
+Qed.
+
+(* ---- the as_flat_slice fast path.  ParsedName::to_name / flatten_into /
+   to_cow / compose copy octets[pos .. pos + name_len] when the name is flagged
+   uncompressed and iterate the labels otherwise.  C04 proved that an
+   uncompressed ParsedName is one contiguous run of labels (flat_ok). *)
+Definition parsed_flatten (m : bytes) (p : pname) : outcome bytes :=
+  if pn_compressed p then parsed_to_name m p
+  else if mlen m <? pn_pos p + pn_len p then Panic 13     (* slice out of range *)
+  else Ok (slice m (pn_pos p) (pn_pos p + pn_len p)).
+
+Theorem parsed_flatten_valid m pos lim p : parse_ref m pos lim = Ok p -> lim <= mlen m -> wf_bytes m ->
+  exists n, valid_abs n /\ parsed_flatten m p = Ok (wire_abs n) /\ parsed_to_name m p = Ok (wire_abs n) /\
+            N.of_nat (length (wire_abs n)) = pn_len p.
+Proof.
+  intros H Hl Hw.
+  destruct (C04.ProofsCompressed.parsed_inv m pos lim p H Hl Hw) as (n & Hv & Hp & _ & Hf).
+  destruct (parse_ref_sound m pos lim p H Hl Hw) as (n' & Hp' & _ & Hlen & _).
+  rewrite Hp in Hp'. injection Hp' as <-.
+  assert (Ht : parsed_to_name m p = Ok (wire_abs n)) by (unfold parsed_to_name; rewrite Hp; reflexivity).
+  exists n. split; [exact Hv|]. split; [|split; [exact Ht|rewrite wire_abs_length; lia]].
+  unfold parsed_flatten. destruct (pn_compressed p) eqn:C; [exact Ht|].
+  destruct (Hf C) as [Hr Hs]. rewrite C04.ProofsIter.wire_labels_abs in Hs.
+  destruct (N.ltb_spec (mlen m) (pn_pos p + pn_len p)); [lia|]. rewrite Hs. reflexivity.
 Qed.
